@@ -19,7 +19,9 @@ class Hist:
         pool = rng.choice(KEY_POOLS)
         nkeys = nkeys or rng.randint(1, min(5, len(pool)))
         self.keys = sorted(rng.sample(pool, nkeys))      # byte-wise order = Go's sort.Strings
-        self.lines = ["case %s roots=%d" % (cid, roots), "keytab " + " ".join(k.hex() for k in self.keys)]
+        # a quarter of the histories pass request-scoped contexts (cancelled as soon as the call has returned)
+        opt = " ctx=req" if rng.random() < 0.25 else ""
+        self.lines = ["case %s roots=%d%s" % (cid, roots, opt), "keytab " + " ".join(k.hex() for k in self.keys)]
         self.nkeys = nkeys
         self.open = []        # open handle numbers
         self.ended = []       # ended handle numbers
@@ -103,7 +105,7 @@ def gen_history(rng, cid, profile="mixed", probe_p=0.15, gc_p=0.06, reopen_p=0.0
             elif x < 0.90:
                 h.keys_(0)
             elif x < 0.93:
-                h.emit("set 0 0 %d 1 s" % (h.nv + 1)); h.nv += 1      # empty key
+                h.set(0, k=0)      # empty key, through Set, SetReader or Create+Write*+Close, any length
             elif x < 0.96:
                 h.emit("gc")
             elif x < 0.98:
